@@ -33,6 +33,9 @@ def bytecount (l : List Byte) (a : Char) : Nat := (l.filter (fun b => byte_eq b 
 def rev {α : Type} (l : List α) : List α := l.reverse
 /-- `Iterator::position` -/
 def position {α : Type} (l : List α) (p : α → Bool) : Option Nat := l.findIdx? p
+/-- `Iterator::rposition` (on an exact-size double-ended iterator such as `slice::Iter`): the index of the last match -/
+def rposition {α : Type} (l : List α) (p : α → Bool) : Option Nat :=
+  (l.reverse.findIdx? p).map (fun pos => l.length - 1 - pos)
 
 structure StrSlice where
   start : Nat
